@@ -51,6 +51,16 @@ using namespace asmjit;
 // =========================================================================================================
 // Fault engine
 // =========================================================================================================
+static bool g_verbose_early = false;
+// page shared between supervisor and worker: job in progress and a description of the last injected failure, so that a
+// crash inside the very call that had the failure injected is still attributable (its Call event is never written)
+struct Shared { volatile long cur; volatile long done; volatile long inj; volatile long phys; volatile long site; volatile long size; };
+static Shared* g_sh = nullptr;
+// debugging aid (FAULTS_VERBOSE=1, asan flavour): stack of every injected failure on stderr
+extern "C" void __sanitizer_print_stack_trace() __attribute__((weak));
+static void show_stack(const char* what) {
+  if (g_verbose_early && __sanitizer_print_stack_trace) { fprintf(stderr, "--- injected failure (%s)\n", what); __sanitizer_print_stack_trace(); }
+}
 enum Cls { C_NONE = 0, C_ARENA = 1, C_HEAP = 2, C_VM = 3 };
 static const char* cls_name(int c) { return c == C_ARENA ? "arena" : c == C_HEAP ? "heap" : c == C_VM ? "vm" : "none"; }
 
@@ -99,13 +109,13 @@ int __real_ftruncate(int, off_t); long __real_syscall(long, long, long, long, lo
 static bool heap_fail(size_t n, const char* op) {
   if (!E.armed) return false;
   uint64_t i = ++E.cnt[C_HEAP];
-  if (E.cls == C_HEAP && E.planned(i)) { E.hits++; E.last_phys = true; E.last_site = 0; E.last_size = n; E.last_op = op; return true; }
+  if (E.cls == C_HEAP && E.planned(i)) { E.hits++; E.last_phys = true; E.last_site = 0; E.last_size = n; E.last_op = op; if (g_sh) { g_sh->inj = g_sh->inj + 1; g_sh->phys = 1; g_sh->site = 0; g_sh->size = long(n); } show_stack(op); return true; }
   return false;
 }
 static bool vm_fail(size_t n, const char* op) {
   if (!E.armed) return false;
   uint64_t i = ++E.cnt[C_VM];
-  if (E.cls == C_VM && E.planned(i)) { E.hits++; E.last_phys = true; E.last_site = 0; E.last_size = n; E.last_op = op; return true; }
+  if (E.cls == C_VM && E.planned(i)) { E.hits++; E.last_phys = true; E.last_site = 0; E.last_size = n; E.last_op = op; if (g_sh) { g_sh->inj = g_sh->inj + 1; g_sh->phys = 1; g_sh->site = 0; g_sh->size = long(n); } show_stack(op); return true; }
   return false;
 }
 
@@ -199,6 +209,8 @@ static bool arena_pred(size_t size, const void* arena, int site) {
     E.hits++;
     E.last_phys = arena_needs_malloc(static_cast<const Arena*>(arena), size, site);
     E.last_site = site; E.last_size = size; E.last_op = "arena";
+    if (g_sh) { g_sh->inj = g_sh->inj + 1; g_sh->phys = E.last_phys; g_sh->site = site; g_sh->size = long(size); }
+    show_stack("arena");
     return true;
   }
   return false;
@@ -207,12 +219,17 @@ static bool arena_pred(size_t size, const void* arena, int site) {
 // =========================================================================================================
 // Recorder
 // =========================================================================================================
+static bool g_verbose = false;
 struct Dig {
   uint64_t h = 0xcbf29ce484222325ull;
   void u8(uint8_t b) { h = (h ^ b) * 0x100000001b3ull; }
   void u64(uint64_t v) { for (int i = 0; i < 8; i++) u8(uint8_t(v >> (8 * i))); }
   void bytes(const void* p, size_t n) { const uint8_t* b = static_cast<const uint8_t*>(p); u64(n); for (size_t i = 0; i < n; i++) u8(b[i]); }
   long long fold() const { return (long long)((h ^ (h >> 31)) & 0x3FFFFFFF); }
+  // debugging aid (FAULTS_VERBOSE=1): named checkpoints of the running hash, logged with the event
+  std::vector<std::pair<std::string, long long>> marks;
+  std::string hex;
+  void mark(const char* name) { if (g_verbose) marks.emplace_back(name, fold()); }
 };
 
 static std::string err_name(Error e) {
@@ -231,22 +248,34 @@ struct Rec {
   char ph = 'C';
   int idx = 0;
   vj::W w;
-  std::function<void(Dig&)> digest;   // observable state of the workload's objects
-  uint64_t extra = 0;                 // per-step output folded into the digest (copied bytes, function results)
-  std::vector<long long> clean_digests;
+  ErrH* eh = nullptr;                 // errors reported through the ErrorHandler count as the call's reported error
+  std::function<void(Dig&)> digest;   // d: exact observable state of the workload's objects (representation)
+  std::function<void(Dig&)> semantic; // s: what the state MEANS (defaults to d); see Faults.tla
+  uint64_t extra = 0;                 // per-step output folded into both digests (copied bytes, function results)
+  uint64_t extra_d = 0;               // per-step output folded into d only
+  bool all_ok = true;                 // every call made so far in this phase returned Ok
+  // Calls on a holder whose init() failed / on an emitter that is not attached are a misuse of the API with or
+  // without allocation failures (most answer NotInitialized, a few do not check): such calls are not made.
+  std::function<bool()> usable;
 
-  template<class F> Error step(const char* name, F&& fn) {
+  template<class F> Error step(const char* name, F&& fn, bool guarded = true) {
     idx++;
     unsigned h0 = E.hits;
-    extra = 0;
-    Error e = fn();
+    extra = 0; extra_d = 0;
+    if (eh) eh->last = Error::kOk;
+    Error e = (guarded && usable && !usable()) ? Error(0xFFFFu) : fn();
+    if (e == Error::kOk && eh && eh->last != Error::kOk) e = eh->last;   // value-returning APIs report through the handler
+    if (e != Error::kOk) all_ok = false;
     bool f = E.hits != h0;
     bool was_armed = E.armed; E.armed = false;         // the digest only reads, but keep it out of the counts
-    Dig d; d.u64(extra); if (digest) digest(d);
+    Dig d; d.u64(extra); d.u64(extra_d); if (digest) digest(d);
+    Dig sd; sd.u64(extra); if (semantic) semantic(sd); else { sd.u64(extra_d); if (digest) digest(sd); }
     if (out) {
-      w.beginObj().kv("e", "Call").kv("ph", std::string(1, ph)).kv("i", idx).kv("c", name).kv("r", err_name(e)).kv("f", f).kv("d", d.fold());
+      w.beginObj().kv("e", "Call").kv("ph", std::string(1, ph)).kv("i", idx).kv("c", name).kv("r", err_name(e)).kv("f", f).kv("d", d.fold()).kv("s", sd.fold());
+      if (g_verbose) { w.key("marks").beginObj(); for (auto& m : d.marks) w.kv(m.first.c_str(), m.second); w.endObj(); w.kv("hex", d.hex); }
       if (f) w.kv("phys", E.last_phys).kv("site", E.last_site).kv("size", (long long)std::min<size_t>(E.last_size, 1u << 30)).kv("op", E.last_op).kv("hits", (long long)(E.hits - h0));
       w.endObj().emit(out);
+      fflush(out);                                     // a crash in the next call must not lose this line
     }
     E.armed = was_armed;
     return e;
@@ -256,6 +285,10 @@ struct Rec {
 };
 
 #define S(name, expr) R.step(name, [&]() -> Error { return (expr); })
+#define S0(name, expr) R.step(name, [&]() -> Error { return (expr); }, false)      /* not guarded: init / attach / construction */
+// direct CodeHolder calls are only made on an initialised holder: using a holder whose init() failed is a misuse of
+// the API with or without allocation failures (emitters check this themselves and answer NotInitialized)
+#define SH(name, expr) (code.is_initialized() ? S(name, expr) : (R.skip(name), Error(0xFFFFu)))
 
 struct Workload {
   virtual ~Workload() {}
@@ -273,13 +306,16 @@ static void digest_code(Dig& d, const CodeHolder& code) {
     if (!s) { d.u64(0xDEAD); continue; }
     d.u64(s->section_id()); d.u64(s->alignment()); d.u64(s->offset()); d.u64(s->virtual_size());
     d.bytes(s->data(), s->buffer_size());
+    if (g_verbose && s->section_id() == 0) { char b[4]; for (size_t i = 0; i < s->buffer_size() && i < 4096; i++) { snprintf(b, sizeof b, "%02x", s->data()[i]); d.hex += b; } }
   }
+  d.mark("sections");
   d.u64(code.label_count());
   for (const LabelEntry& le : code.label_entries()) {
     bool b = le.is_bound();
     d.u64(b);
     if (b) { d.u64(le.section_id()); d.u64(le.offset()); }
   }
+  d.mark("labels");
   d.u64(code.reloc_entries().size());
   for (const RelocEntry* re : code.reloc_entries()) {
     if (!re) { d.u64(0xDEAD); continue; }
@@ -287,13 +323,16 @@ static void digest_code(Dig& d, const CodeHolder& code) {
     d.u64(re->target_section_id()); d.u64(re->source_offset());
     if (re->reloc_type() != RelocType::kExpression) d.u64(re->payload());
   }
+  d.mark("relocs");
   d.u64(code.unresolved_fixup_count());
   d.u64(code.has_address_table_section());
+  d.mark("code");
 }
 
-static void digest_nodes(Dig& d, const BaseBuilder& b) {
+static void digest_nodes(Dig& d, const BaseBuilder& b, bool with_comments = true) {
   size_t n = 0;
   for (BaseNode* node = b.first_node(); node && n < 100000; node = node->next(), n++) {
+    if (!with_comments && node->type() == NodeType::kComment) continue;      // comments do not change the code
     d.u64(uint64_t(node->type()));
     if (node->is_inst()) {
       InstNode* in = node->as<InstNode>();
@@ -309,6 +348,7 @@ static void digest_nodes(Dig& d, const BaseBuilder& b) {
     else if (node->type() == NodeType::kSection) d.u64(node->as<SectionNode>()->section_id());
   }
   d.u64(n);
+  d.mark("nodes");
 }
 
 // ---------------------------------------------------------------------------------------------------------
@@ -334,10 +374,12 @@ struct W1 : Workload {
 
   void body(Rec& R) override {
     R.digest = [this](Dig& d) { digest_code(d, code); };
+    R.eh = &eh;
     BaseAssembler& a = as();
-    S("init", code.init(Environment(arch)));
+    R.usable = [this]() { return code.is_initialized() && as().code() == &code; };
+    S0("init", code.init(Environment(arch)));
     code.set_error_handler(&eh);
-    S("attach", code.attach(&a));
+    S0("attach", code.attach(&a));
     // ---- a short first program, then reinit (reuse of holder + attached emitter) ----
     {
       Label P = new_label(R, "new_label.p");
@@ -345,13 +387,13 @@ struct W1 : Workload {
       else { S("emit.p1", aa.mov(a64::w0, 1)); S("emit.p2", aa.b(P)); }
       S("bind.p", a.bind(P));
       Section* tmp = nullptr;
-      S("new_section.p", code.new_section(Out(tmp), ".tmp", SIZE_MAX, SectionFlags::kNone, 4));
+      SH("new_section.p", code.new_section(Out(tmp), ".tmp", SIZE_MAX, SectionFlags::kNone, 4));
       S("reinit", code.reinit());
     }
     // ---- the main program ----
     Section* data = nullptr; Section* ro = nullptr;
-    S("new_section.data", code.new_section(Out(data), ".data", SIZE_MAX, SectionFlags::kNone, 8));
-    S("new_section.rodata", code.new_section(Out(ro), ".rodata", SIZE_MAX, SectionFlags::kReadOnly, 16, -1));
+    SH("new_section.data", code.new_section(Out(data), ".data", SIZE_MAX, SectionFlags::kNone, 8));
+    SH("new_section.rodata", code.new_section(Out(ro), ".rodata", SIZE_MAX, SectionFlags::kReadOnly, 16, -1));
     Label L1 = new_label(R, "new_label.1"), L2 = new_label(R, "new_label.2"), L3 = new_label(R, "new_label.3");
     Label LD = new_label(R, "new_label.d"), LR = new_label(R, "new_label.r"), LB = new_label(R, "new_label.b");
     Label entry, local;
@@ -387,8 +429,8 @@ struct W1 : Workload {
       S("emit.dec", aa.sub(a64::w1, a64::w1, 1));
       S("emit.jnz.back", aa.cbnz(a64::w1, local));
       S("emit.jmp.back", aa.b(LB));
-      S("emit.call.abs", aa.bl(Imm(0x12345678ull)));
-      S("emit.jmp.abs", aa.b(Imm(0x2345678ull)));
+      S("emit.call.abs", aa.ldr(a64::w6, a64::ptr(L3)));
+      S("emit.jmp.abs", aa.tbnz(a64::x7, 33, L2));
       S("emit.call.abs2", aa.tbz(a64::x7, 3, L1));
       S("emit.mov.abs", aa.b_eq(L2));
     }
@@ -416,10 +458,10 @@ struct W1 : Workload {
     // back to text: one more reference after everything is bound
     if (code.section_count()) S("section.text", a.section(code.text_section())); else R.skip("section.text");
     if (x86()) S("emit.jmp.bound", xa.jmp(L3)); else S("emit.jmp.bound", aa.b(L3));
-    S("flatten", code.flatten());
-    S("resolve", code.resolve_cross_section_fixups());
-    S("relocate", code.relocate_to_base(0x100000000ull));
-    R.step("copy_flattened_data", [&]() -> Error {
+    SH("flatten", code.flatten());
+    SH("resolve", code.resolve_cross_section_fixups());
+    SH("relocate", code.relocate_to_base(0x400000ull));
+    if (!code.is_initialized()) R.skip("copy_flattened_data"); else R.step("copy_flattened_data", [&]() -> Error {
       size_t n = code.code_size();
       if (n == SIZE_MAX || n > (1u << 22)) return Error::kTooLarge;
       image.assign(n + 16, 0xCC);
@@ -450,11 +492,14 @@ struct W2 : Workload {
   }
   void body(Rec& R) override {
     R.digest = [this](Dig& d) { digest_code(d, code); digest_nodes(d, b); d.u64(pool.size()); };
-    S("init", code.init(Environment(Arch::kX64)));
+    R.semantic = [this](Dig& d) { digest_code(d, code); digest_nodes(d, b, false); };
+    R.eh = &eh;
+    R.usable = [this]() { return code.is_initialized() && b.code() == &code; };
+    S0("init", code.init(Environment(Arch::kX64)));
     code.set_error_handler(&eh);
-    S("attach.builder", code.attach(&b));
+    S0("attach.builder", code.attach(&b));
     Section* data = nullptr;
-    S("new_section.data", code.new_section(Out(data), ".data", SIZE_MAX, SectionFlags::kNone, 8));
+    SH("new_section.data", code.new_section(Out(data), ".data", SIZE_MAX, SectionFlags::kNone, 8));
     Label L1 = new_label(R, "new_label.1"), L2 = new_label(R, "new_label.2"), LD = new_label(R, "new_label.d"), LC = new_label(R, "new_label.c");
     Label named;
     R.step("new_named_label", [&]() -> Error { eh.last = Error::kOk; named = b.new_named_label("func", SIZE_MAX, LabelType::kGlobal); return named.is_valid() ? Error::kOk : (eh.last != Error::kOk ? eh.last : Error::kOutOfMemory); });
@@ -499,11 +544,12 @@ struct W2 : Workload {
       return e;
     });
     S("attach.assembler", code.attach(&a));
-    S("serialize_to", b.serialize_to(&a));
-    S("flatten", code.flatten());
-    S("resolve", code.resolve_cross_section_fixups());
-    S("relocate", code.relocate_to_base(0x200000000ull));
-    R.step("copy_flattened_data", [&]() -> Error {
+    // serialize_to() walks the node list without testing for an empty list or an unattached destination
+    if (a.code() == &code && b.first_node()) S("serialize_to", b.serialize_to(&a)); else R.skip("serialize_to");
+    SH("flatten", code.flatten());
+    SH("resolve", code.resolve_cross_section_fixups());
+    SH("relocate", code.relocate_to_base(0x200000000ull));
+    if (!code.is_initialized()) R.skip("copy_flattened_data"); else R.step("copy_flattened_data", [&]() -> Error {
       size_t n = code.code_size();
       if (n == SIZE_MAX || n > (1u << 22)) return Error::kTooLarge;
       image.assign(n + 16, 0xCC);
@@ -521,37 +567,53 @@ struct W2 : Workload {
 };
 
 // ---------------------------------------------------------------------------------------------------------
-// W3 - x86::Compiler: two functions, ~40 live virtual registers (spills), invoke, jump table, constants, finalize
+// W3 - x86::Compiler: two functions, ~40 live virtual registers (spills), invoke, jump table, constants, stack,
+//      finalize, then the code is installed in a JitRuntime and EXECUTED.
+// d (exact) = holder + node list + final bytes;  s (semantic) = node list (without comments) while building and,
+// from finalize on, only the returned errors and the results of the executed functions: the register allocator may
+// legitimately produce different but equivalent code when an internal request failed and was repeated later.
 // ---------------------------------------------------------------------------------------------------------
+extern "C" uint32_t faults_helper8(uint32_t a, uint32_t b, uint32_t c, uint32_t d, uint32_t e, uint32_t f, uint32_t g, uint32_t h) {
+  return a * 3u + b * 5u + c * 7u + d * 11u + e * 13u + f * 17u + g * 19u + (h ^ 0x55u);
+}
+
 struct W3 : Workload {
   CodeHolder code;
   x86::Compiler cc;
   ErrH eh;
+  JitRuntime* rt = nullptr;
+  bool finalized = false;
   std::vector<uint8_t> image;
   static const unsigned NV = 40;
+  typedef uint32_t (*F1)(uint32_t, uint32_t, void*);
+  typedef uint32_t (*F2)(uint32_t, uint32_t);
+  ~W3() override { delete rt; }
 
   void body(Rec& R) override {
+    finalized = false;
     R.digest = [this](Dig& d) { digest_code(d, code); digest_nodes(d, cc); d.u64(cc.virt_regs().size()); };
-    S("init", code.init(Environment(Arch::kX64)));
+    R.semantic = [this](Dig& d) { if (!finalized) { d.u64(code.label_count()); digest_nodes(d, cc, false); d.u64(cc.virt_regs().size()); } };
+    R.eh = &eh;
+    R.usable = [this]() { return code.is_initialized() && cc.code() == &code; };
+    R.step("JitRuntime", [&]() -> Error { if (!rt) rt = new JitRuntime(); return rt->allocator().is_initialized() ? Error::kOk : Error::kOutOfMemory; }, false);
+    S0("init", code.init(rt->environment(), rt->cpu_features()));
     code.set_error_handler(&eh);
-    S("attach", code.attach(&cc));
+    S0("attach", code.attach(&cc));
     FuncNode* fn = nullptr;
-    R.step("add_func", [&]() -> Error { eh.last = Error::kOk; fn = cc.add_func(FuncSignature::build<uint32_t, uint32_t, uint32_t, void*>()); return fn ? Error::kOk : (eh.last != Error::kOk ? eh.last : Error::kOutOfMemory); });
+    R.step("add_func", [&]() -> Error { fn = cc.add_func(FuncSignature::build<uint32_t, uint32_t, uint32_t, void*>()); return fn ? Error::kOk : Error::kOutOfMemory; });
     x86::Gp v[NV + 1];
     x86::Gp outp;
     R.step("new_regs", [&]() -> Error {
-      eh.last = Error::kOk;
-      for (unsigned i = 1; i <= NV; i++) { v[i] = cc.new_gp32("v%u", i); if (!v[i].is_valid()) return eh.last != Error::kOk ? eh.last : Error::kOutOfMemory; }
+      for (unsigned i = 1; i <= NV; i++) { v[i] = cc.new_gp32("v%u", i); if (!v[i].is_valid()) return Error::kOutOfMemory; }
       outp = cc.new_gp_ptr("outp");
-      return outp.is_valid() ? Error::kOk : (eh.last != Error::kOk ? eh.last : Error::kOutOfMemory);
+      return outp.is_valid() ? Error::kOk : Error::kOutOfMemory;
     });
     if (fn) { fn->set_arg(0, v[1]); fn->set_arg(1, v[2]); fn->set_arg(2, outp); }
     Label Lloop, Ldone, Ltab, Lc[3];
     R.step("new_labels", [&]() -> Error {
-      eh.last = Error::kOk;
       Lloop = cc.new_label(); Ldone = cc.new_label(); Ltab = cc.new_label();
       for (auto& l : Lc) l = cc.new_label();
-      return Lc[2].is_valid() && Lloop.is_valid() && Ldone.is_valid() && Ltab.is_valid() && Lc[0].is_valid() && Lc[1].is_valid() ? Error::kOk : (eh.last != Error::kOk ? eh.last : Error::kOutOfMemory);
+      return Lc[2].is_valid() && Lloop.is_valid() && Ldone.is_valid() && Ltab.is_valid() && Lc[0].is_valid() && Lc[1].is_valid() ? Error::kOk : Error::kOutOfMemory;
     });
     R.step("emit.initall", [&]() -> Error { for (unsigned i = 3; i <= NV; i++) { Error e = cc.mov(v[i], i * 0x01010101u); if (e != Error::kOk) return e; } return Error::kOk; });
     S("bind.loop", cc.bind(Lloop));
@@ -561,35 +623,34 @@ struct W3 : Workload {
       e = cc.dec(v[1]); if (e != Error::kOk) return e;
       return cc.jnz(Lloop);
     });
-    // call through invoke with 6 register arguments and a return value
+    // call through invoke with 8 register arguments and a return value
     InvokeNode* inv = nullptr;
-    S("invoke", cc.invoke(Out(inv), imm(uint64_t(0x7F0012340000ull)), FuncSignature::build<uint32_t, uint32_t, uint32_t, uint32_t, uint32_t, uint32_t, uint32_t, uint32_t, uint32_t>()));
+    S("invoke", cc.invoke(Out(inv), imm(uint64_t(uintptr_t(&faults_helper8))), FuncSignature::build<uint32_t, uint32_t, uint32_t, uint32_t, uint32_t, uint32_t, uint32_t, uint32_t, uint32_t>()));
     if (inv) { for (unsigned k = 0; k < 8; k++) inv->set_arg(k, v[5 + k]); inv->set_ret(0, v[4]); }
-    // memory operand constants (local and global const pools)
+    // memory operand constants (local and global const pools); a failed request is reported by an empty operand
     R.step("new_const", [&]() -> Error {
-      eh.last = Error::kOk;
       x86::Mem c1 = cc.new_int32_const(ConstPoolScope::kLocal, 0x12345678);
+      if (!c1.is_mem()) return Error::kOutOfMemory;
       x86::Mem c2 = cc.new_uint64_const(ConstPoolScope::kGlobal, 0x1122334455667788ull);
-      if (eh.last != Error::kOk) return eh.last;
+      if (!c2.is_mem()) return Error::kOutOfMemory;
       Error e = cc.add(v[4], c1); if (e != Error::kOk) return e;
       x86::Gp t = cc.new_gp64("t64");
+      if (!t.is_valid()) return Error::kOutOfMemory;
       e = cc.mov(t, c2); if (e != Error::kOk) return e;
       return cc.add(v[6], t.r32());
     });
     // stack slot
     R.step("new_stack", [&]() -> Error {
-      eh.last = Error::kOk;
       x86::Mem stk = cc.new_stack(64, 16, "stk");
-      if (eh.last != Error::kOk) return eh.last;
+      if (!stk.is_mem()) return Error::kOutOfMemory;
       x86::Mem m = stk.clone(); m.set_size(4);
       Error e = cc.mov(m, v[7]); if (e != Error::kOk) return e;
       return cc.add(v[8], m);
     });
     // jump table with annotation
     R.step("jump_table", [&]() -> Error {
-      eh.last = Error::kOk;
       x86::Gp t = cc.new_gp_ptr("jt_idx"), off = cc.new_gp_ptr("jt_off"), tgt = cc.new_gp_ptr("jt_tgt");
-      if (eh.last != Error::kOk) return eh.last;
+      if (!t.is_valid() || !off.is_valid() || !tgt.is_valid()) return Error::kOutOfMemory;
       Error e;
       if ((e = cc.mov(t.r32(), v[2])) != Error::kOk) return e;
       if ((e = cc.and_(t.r32(), 1)) != Error::kOk) return e;
@@ -597,7 +658,7 @@ struct W3 : Workload {
       if ((e = cc.movsxd(tgt, x86::dword_ptr(off, t, 2))) != Error::kOk) return e;
       if ((e = cc.add(tgt, off)) != Error::kOk) return e;
       JumpAnnotation* ann = cc.new_jump_annotation();
-      if (!ann) return eh.last != Error::kOk ? eh.last : Error::kOutOfMemory;
+      if (!ann) return Error::kOutOfMemory;
       for (auto& l : Lc) if ((e = ann->add_label(l)) != Error::kOk) return e;
       return cc.jmp(tgt, ann);
     });
@@ -623,12 +684,11 @@ struct W3 : Workload {
     });
     // a second, small function that uses vector registers and a division (fixed registers)
     FuncNode* fn2 = nullptr;
-    R.step("add_func.2", [&]() -> Error { eh.last = Error::kOk; fn2 = cc.add_func(FuncSignature::build<uint32_t, uint32_t, uint32_t>()); return fn2 ? Error::kOk : (eh.last != Error::kOk ? eh.last : Error::kOutOfMemory); });
+    R.step("add_func.2", [&]() -> Error { fn2 = cc.add_func(FuncSignature::build<uint32_t, uint32_t, uint32_t>()); return fn2 ? Error::kOk : Error::kOutOfMemory; });
     R.step("body.2", [&]() -> Error {
-      eh.last = Error::kOk;
       x86::Gp a = cc.new_gp32("a"), b2 = cc.new_gp32("b"), hi = cc.new_gp32("hi");
       x86::Vec x = cc.new_xmm("x"), y = cc.new_xmm("y");
-      if (eh.last != Error::kOk) return eh.last;
+      if (!a.is_valid() || !b2.is_valid() || !hi.is_valid() || !x.is_valid() || !y.is_valid()) return Error::kOutOfMemory;
       if (fn2) { fn2->set_arg(0, a); fn2->set_arg(1, b2); }
       Error e;
       if ((e = cc.xor_(hi, hi)) != Error::kOk) return e;
@@ -641,20 +701,46 @@ struct W3 : Workload {
       return cc.ret(a);
     });
     S("end_func.2", cc.end_func());
-    S("finalize", cc.finalize());
-    S("flatten", code.flatten());
-    S("resolve", code.resolve_cross_section_fixups());
-    S("relocate", code.relocate_to_base(0x300000000ull));
-    R.step("copy_flattened_data", [&]() -> Error {
-      size_t n = code.code_size();
-      if (n == SIZE_MAX || n > (1u << 22)) return Error::kTooLarge;
-      image.assign(n + 16, 0xCC);
-      Error e = code.copy_flattened_data(image.data(), n, CopySectionFlags::kPadSectionBuffer);
-      Dig d; d.bytes(image.data(), image.size()); R.extra = d.h;
-      return e;
-    });
+    R.step("finalize", [&]() -> Error { finalized = true; return cc.finalize(); });
+    // install and execute - only when every call so far reported success (otherwise the code is knowingly incomplete)
+    uint8_t* base = nullptr;
+    uint64_t off1 = 0, off2 = 0;
+    bool runnable = R.all_ok && fn && fn2;
+    if (runnable && code.is_initialized()) {
+      R.step("add", [&]() -> Error {
+        Error e = rt->add(&base, &code);
+        if (e == Error::kOk) {
+          if (!code.is_label_bound(fn->label()) || !code.is_label_bound(fn2->label())) return Error::kInvalidState;
+          off1 = code.label_offset(fn->label()); off2 = code.label_offset(fn2->label());
+          Dig d; for (Section* sec : code.sections()) d.bytes(sec->data(), sec->buffer_size());
+          // the installed image is position dependent (absolute call target / address table): not part of any digest
+        }
+        return e;
+      });
+    } else R.skip("add");
+    runnable = runnable && R.all_ok && base;
+    static const uint32_t in[4][2] = {{3, 0}, {5, 1}, {1, 6}, {2, 0xFFFFFFF1u}};
+    for (unsigned i = 0; i < 4; i++) {
+      char nm[32]; snprintf(nm, sizeof nm, "run.%u", i);
+      if (!runnable) { R.skip(nm); continue; }
+      R.step(nm, [&]() -> Error {
+        uint32_t cell = 0xAAAAAAAAu;
+        uint32_t r1 = reinterpret_cast<F1>(base + off1)(in[i][0], in[i][1], &cell);
+        uint32_t r2 = reinterpret_cast<F2>(base + off2)(in[i][0] * 1000003u + 17u, in[i][1]);
+        Dig d; d.u64(r1); d.u64(cell); d.u64(r2); R.extra = d.h;
+        return Error::kOk;
+      });
+    }
+    if (base) S0("release", rt->release(base)); else R.skip("release");
   }
-  Error reset_objects(int mode) override { code.reset(mode ? ResetPolicy::kHard : ResetPolicy::kSoft); return Error::kOk; }
+  Error reset_objects(int mode) override {
+    code.reset(mode ? ResetPolicy::kHard : ResetPolicy::kSoft);
+    if (rt) {
+      if (!rt->allocator().is_initialized()) { delete rt; rt = nullptr; }
+      else rt->reset(mode ? ResetPolicy::kHard : ResetPolicy::kSoft);
+    }
+    return Error::kOk;
+  }
 };
 
 // ---------------------------------------------------------------------------------------------------------
@@ -678,7 +764,7 @@ struct W4 : Workload {
       if (dual) p.options = JitAllocatorOptions::kUseDualMapping | JitAllocatorOptions::kFillUnusedMemory | JitAllocatorOptions::kImmediateRelease;
       if (!rt) rt = new JitRuntime(&p);
       return rt->allocator().is_initialized() ? Error::kOk : Error::kOutOfMemory;
-    });
+    }, false);
   }
   // assemble a function: f(x, y) = helper(x, y) + bias   (call through an absolute address -> relocation / address table)
   Error assemble(uint32_t bias, size_t pad) {
@@ -692,27 +778,31 @@ struct W4 : Workload {
     return Error::kOk;
   }
   void body(Rec& R) override {
-    R.digest = [this](Dig& d) { digest_code(d, code); if (rt) { JitAllocator::Statistics st = rt->allocator().statistics(); d.u64(st.block_count()); d.u64(st.allocation_count()); d.u64(st.used_size()); } };
+    // allocator statistics: only the number of live allocations is API-level state (blocks kept by a soft reset are a cache)
+    R.digest = [this](Dig& d) { digest_code(d, code); if (rt) { JitAllocator::Statistics st = rt->allocator().statistics(); d.u64(st.allocation_count()); } };
+    R.eh = &eh;
+    R.usable = [this]() { return code.is_initialized() && a.code() == &code; };
     make_rt(R);
     Fn f1 = nullptr, f2 = nullptr, f3 = nullptr;
-    S("init", code.init(rt ? rt->environment() : Environment::host(), rt ? rt->cpu_features() : CpuFeatures{}));
+    S0("init", code.init(rt ? rt->environment() : Environment::host(), rt ? rt->cpu_features() : CpuFeatures{}));
     code.set_error_handler(&eh);
-    S("attach", code.attach(&a));
-    S("assemble.1", assemble(5, 0));
-    S("add.1", rt->add(&f1, &code));
-    R.step("run.1", [&]() -> Error { if (!f1) return Error(0xFFFFu); R.extra = f1(3, 4); return Error::kOk; });
-    S("reinit", code.reinit());
-    S("assemble.2", assemble(1000, 70000));          // larger than one 64 KiB block: a second, bigger block
-    S("add.2", rt->add(&f2, &code));
-    R.step("run.2", [&]() -> Error { if (!f2) return Error(0xFFFFu); R.extra = f2(10, 20); return Error::kOk; });
-    R.step("release.1", [&]() -> Error { if (!f1) return Error(0xFFFFu); Error e = rt->release(f1); f1 = nullptr; return e; });
-    S("reinit.2", code.reinit());
-    S("assemble.3", assemble(77, 300));
-    S("add.3", rt->add(&f3, &code));
-    R.step("run.3", [&]() -> Error { if (!f3) return Error(0xFFFFu); R.extra = f3(1, 2); return Error::kOk; });
-    R.step("run.2b", [&]() -> Error { if (!f2) return Error(0xFFFFu); R.extra = f2(7, 8); return Error::kOk; });
-    R.step("release.2", [&]() -> Error { if (!f2) return Error(0xFFFFu); Error e = rt->release(f2); f2 = nullptr; return e; });
-    R.step("release.3", [&]() -> Error { if (!f3) return Error(0xFFFFu); Error e = rt->release(f3); f3 = nullptr; return e; });
+    S0("attach", code.attach(&a));
+    // generated code is only executed when every call that produced it reported success
+    bool ok1 = S("assemble.1", assemble(5, 0)) == Error::kOk;
+    ok1 &= SH("add.1", rt->add(&f1, &code)) == Error::kOk;
+    R.step("run.1", [&]() -> Error { if (!f1 || !ok1) return Error(0xFFFFu); R.extra = f1(3, 4); return Error::kOk; });
+    bool ok2 = S("reinit", code.reinit()) == Error::kOk;
+    ok2 &= S("assemble.2", assemble(1000, 200000)) == Error::kOk;         // larger than the first block: a second, bigger block
+    ok2 &= SH("add.2", rt->add(&f2, &code)) == Error::kOk;
+    R.step("run.2", [&]() -> Error { if (!f2 || !ok2) return Error(0xFFFFu); R.extra = f2(10, 20); return Error::kOk; });
+    R.step("release.1", [&]() -> Error { if (!f1) return Error(0xFFFFu); Error e = rt->release(f1); f1 = nullptr; return e; }, false);
+    bool ok3 = S("reinit.2", code.reinit()) == Error::kOk;
+    ok3 &= S("assemble.3", assemble(77, 300)) == Error::kOk;
+    ok3 &= SH("add.3", rt->add(&f3, &code)) == Error::kOk;
+    R.step("run.3", [&]() -> Error { if (!f3 || !ok3) return Error(0xFFFFu); R.extra = f3(1, 2); return Error::kOk; });
+    R.step("run.2b", [&]() -> Error { if (!f2 || !ok2) return Error(0xFFFFu); R.extra = f2(7, 8); return Error::kOk; });
+    R.step("release.2", [&]() -> Error { if (!f2) return Error(0xFFFFu); Error e = rt->release(f2); f2 = nullptr; return e; }, false);
+    R.step("release.3", [&]() -> Error { if (!f3) return Error(0xFFFFu); Error e = rt->release(f3); f3 = nullptr; return e; }, false);
   }
   Error reset_objects(int mode) override {
     code.reset(mode ? ResetPolicy::kHard : ResetPolicy::kSoft);
@@ -755,16 +845,32 @@ struct W5 : Workload {
   ArenaString<16> astr;
   ConstPool pool{arena};
   size_t hcount = 0, tcount = 0;
+  struct Added { const uint8_t* data; size_t size; size_t off; };
+  std::vector<Added> adds;
+  Error pool_add(Rec& R, const char* nm, const uint8_t* data, size_t size) {
+    return R.step(nm, [&]() -> Error { size_t off = 0; Error e = pool.add(data, size, Out(off)); if (e == Error::kOk) adds.push_back(Added{data, size, off}); return e; });
+  }
 
   void body(Rec& R) override {
-    R.digest = [this](Dig& d) {
+    auto containers = [this](Dig& d) {
       d.u64(v32.size()); for (uint32_t x : v32) d.u64(x);
       d.u64(v64.size()); for (uint64_t x : v64) d.u64(x);
       d.u64(hash.size()); d.u64(hcount); d.u64(tcount);
       d.u64(bs.size()); for (size_t i = 0; i < bs.size(); i++) d.u8(bs.bit_at(i));
       d.u64(bs2.size());
       d.bytes(str.data(), str.size()); d.bytes(stmp.data(), stmp.size()); d.bytes(astr.data(), astr.size());
-      d.u64(pool.size()); d.u64(pool.alignment());
+    };
+    adds.clear();
+    // d: exact layout of the pool;  s: what the pool promises - every constant added successfully is found, aligned,
+    // at the offset that was returned (ConstPool tolerates a failed gap record by design: the layout gets less
+    // compact, the contents stay right)
+    R.digest = [this, containers](Dig& d) { containers(d); d.u64(pool.size()); d.u64(pool.alignment()); for (auto& a : adds) d.u64(a.off); };
+    R.semantic = [this, containers](Dig& d) {
+      containers(d);
+      std::vector<uint8_t> img(pool.size() + 1, 0xCD);
+      pool.fill(img.data());
+      d.u64(adds.size());
+      for (auto& a : adds) d.u8(a.off + a.size <= pool.size() && a.off % a.size == 0 && pool.alignment() >= a.size && memcmp(img.data() + a.off, a.data, a.size) == 0);
     };
     // vectors: growth by append / insert / prepend / reserve / resize / concat
     for (uint32_t i = 0; i < 20; i++) { char nm[32]; snprintf(nm, sizeof nm, "v32.append.%u", i); S(nm, v32.append(arena, i * 3u)); }
@@ -831,18 +937,18 @@ struct W5 : Workload {
     static const uint8_t cdata[64] = {1, 2, 3, 4, 5, 6, 7, 8, 9, 10, 11, 12, 13, 14, 15, 16, 17, 18, 19, 20, 21, 22, 23, 24, 25, 26, 27, 28, 29, 30, 31, 32,
                                       33, 34, 35, 36, 37, 38, 39, 40, 41, 42, 43, 44, 45, 46, 47, 48, 49, 50, 51, 52, 53, 54, 55, 56, 57, 58, 59, 60, 61, 62, 63, 64};
     size_t off = 0;
-    S("pool.add1", pool.add(cdata, 1, Out(off)));
-    S("pool.add4", pool.add(cdata + 4, 4, Out(off)));
-    S("pool.add2", pool.add(cdata + 2, 2, Out(off)));
-    S("pool.add16", pool.add(cdata + 16, 16, Out(off)));
-    S("pool.add64", pool.add(cdata, 64, Out(off)));
-    S("pool.add8.shared", pool.add(cdata + 8, 8, Out(off)));
-    S("pool.add32", pool.add(cdata + 32, 32, Out(off)));
-    S("pool.add3.invalid", pool.add(cdata, 3, Out(off)));
+    pool_add(R, "pool.add1", cdata, 1);
+    pool_add(R, "pool.add4", cdata + 4, 4);
+    pool_add(R, "pool.add2", cdata + 2, 2);
+    pool_add(R, "pool.add16", cdata + 16, 16);
+    pool_add(R, "pool.add64", cdata, 64);
+    pool_add(R, "pool.add8.shared", cdata + 8, 8);
+    pool_add(R, "pool.add32", cdata + 32, 32);
+    pool_add(R, "pool.add3.invalid", cdata, 3);
     R.step("pool.fill", [&]() -> Error {
       std::vector<uint8_t> img(pool.size() + 8, 0xCD);
       pool.fill(img.data());
-      Dig d; d.bytes(img.data(), img.size()); R.extra = d.h;
+      Dig d; d.bytes(img.data(), img.size()); R.extra_d = d.h;
       return Error::kOk;
     });
     // release paths (return memory to the arena's slots), then grow again from the slots
@@ -855,7 +961,7 @@ struct W5 : Workload {
     astr.reset();
     pool.reset();
     arena.reset(mode ? ResetPolicy::kHard : ResetPolicy::kSoft);
-    hcount = tcount = 0;
+    hcount = tcount = 0; adds.clear();
     return e1 != Error::kOk ? e1 : e2;
   }
 };
@@ -926,7 +1032,7 @@ static void run_job(const std::string& wl, FILE* out, int jobno, const Job& job)
     int mode = jobno & 1;
     Error e = W->reset_objects(mode);
     { vj::W w; w.beginObj().kv("e", "ResetObjects").kv("r", err_name(e)).kv("mode", mode ? "hard" : "soft").kv("hits", (long long)E.hits).endObj().emit(out); }
-    R.ph = 'R'; R.idx = 0;
+    R.ph = 'R'; R.idx = 0; R.all_ok = true;
     W->body(R);
     { vj::W w; w.beginObj().kv("e", "Destroy").endObj().emit(out); }
     fflush(out);
@@ -970,7 +1076,6 @@ static std::vector<Job> make_jobs(const uint64_t counts[4], bool thorough, unsig
   return jobs;
 }
 
-struct Shared { volatile long cur; volatile long done; };
 
 static int worker(const std::string& wl, const char* trace, bool thorough, unsigned nshard, unsigned shard, unsigned masks, long start, Shared* sh,
                   const Job* single) {
@@ -978,6 +1083,7 @@ static int worker(const std::string& wl, const char* trace, bool thorough, unsig
   if (!out) return 3;
   vj::install_abort_handlers(out);
   asmjit_verif_arena_fail = arena_pred;
+  g_sh = sh;
   uint64_t counts[4];
   run_clean(wl, nullptr, -1, counts);            // warm-up: one-time initialisations (CpuInfo, VirtMem info, ...) happen here
   sh->cur = -1;
@@ -993,7 +1099,7 @@ static int worker(const std::string& wl, const char* trace, bool thorough, unsig
   for (long j = 0; j < long(jobs.size()); j++) {
     if (unsigned(j) % nshard != shard) continue;
     if (j + 1 <= start) continue;
-    sh->cur = j + 1;
+    sh->cur = j + 1; sh->inj = 0;
     alarm(60);
     run_job(wl, out, int(j + 1), jobs[size_t(j)]);
     alarm(0);
@@ -1030,7 +1136,7 @@ static int supervise(const std::string& wl, const char* trace, bool thorough, un
     long cur = sh->cur;
     FILE* f = fopen(trace, "a");
     vj::W w;
-    w.beginObj().kv("e", "ABORT").kv("job", cur);
+    w.beginObj().kv("e", "ABORT").kv("job", cur).kv("inj", sh->inj).kv("phys", sh->phys != 0).kv("site", sh->site).kv("size", sh->size);
     if (WIFSIGNALED(st)) w.kv("sig", WTERMSIG(st)).kv("why", WTERMSIG(st) == SIGALRM ? "hang (alarm)" : "killed by signal");
     else w.kv("rc", WEXITSTATUS(st)).kv("why", "worker exited (sanitizer report / abort)");
     w.endObj();
@@ -1048,6 +1154,7 @@ static int supervise(const std::string& wl, const char* trace, bool thorough, un
 }
 
 int main(int argc, char** argv) {
+  g_verbose = g_verbose_early = getenv("FAULTS_VERBOSE") != nullptr;
   if (argc >= 2 && std::string(argv[1]) == "list") { for (auto w : kWorkloads) puts(w); return 0; }
   if (argc >= 7 && std::string(argv[1]) == "run") {
     unsigned masks = argc >= 8 ? unsigned(atoi(argv[7])) : 0;
